@@ -962,6 +962,60 @@ theorem text_head_noWs (tk : TS) (hwf : tk.WF) (rest : List Char) : ∃ c r, tk.
   | lp => exact ⟨'(', rest, rfl, by decide⟩
   | rp => exact ⟨')', rest, rfl, by decide⟩
 
+theorem text_last_noWs (tk : TS) (hwf : tk.WF) : ∃ init c, tk.text = init ++ [c] ∧ isWs c = false := by
+  cases tk with
+  | num d =>
+    obtain ⟨hne, hd⟩ := hwf
+    refine ⟨d.dropLast, d.getLast hne, (List.dropLast_concat_getLast hne).symm, ?_⟩
+    exact (digit_facts _ (hd _ (List.getLast_mem hne))).2.1
+  | cell ls ds =>
+    have hne := hwf.nDigits
+    refine ⟨ls ++ ds.dropLast, ds.getLast hne, ?_, ?_⟩
+    · simp [TS.text, List.dropLast_concat_getLast hne]
+    · exact (digit_facts _ (hwf.digits _ (List.getLast_mem hne))).2.1
+  | str body => exact ⟨'"' :: body, '"', by simp [TS.text], by decide⟩
+  | bin name =>
+    rcases hwf with h | rfl | rfl
+    · simp only [opsNoPM, List.mem_cons, List.not_mem_nil, or_false] at h
+      rcases h with rfl | rfl | rfl | rfl | rfl | rfl | rfl | rfl | rfl | rfl
+      · exact ⟨[], '*', rfl, by decide⟩
+      · exact ⟨[], '/', rfl, by decide⟩
+      · exact ⟨[], '^', rfl, by decide⟩
+      · exact ⟨[], '&', rfl, by decide⟩
+      · exact ⟨[], '=', rfl, by decide⟩
+      · exact ⟨[], '<', rfl, by decide⟩
+      · exact ⟨[], '>', rfl, by decide⟩
+      · exact ⟨['<'], '=', rfl, by decide⟩
+      · exact ⟨['>'], '=', rfl, by decide⟩
+      · exact ⟨['<'], '>', rfl, by decide⟩
+    · exact ⟨[], '+', rfl, by decide⟩
+    · exact ⟨[], '-', rfl, by decide⟩
+  | sign m => cases m <;> exact ⟨[], _, rfl, by decide⟩
+  | pct => exact ⟨[], '%', rfl, by decide⟩
+  | sep => exact ⟨[], ',', rfl, by decide⟩
+  | fn name => exact ⟨name, '(', rfl, by decide⟩
+  | lp => exact ⟨[], '(', rfl, by decide⟩
+  | rp => exact ⟨[], ')', rfl, by decide⟩
+
+theorem textOf_last_noWs : ∀ (ss : List TS) (tail : List Char), SafeT ss tail → ss ≠ [] →
+    ∃ init c, textOf ss = init ++ [c] ∧ isWs c = false
+  | [], _, _, h => absurd rfl h
+  | [tk], tail, hs, _ => by
+    cases hs with
+    | cons _ _ _ hwf _ _ =>
+      obtain ⟨init, c, h1, h2⟩ := text_last_noWs tk hwf
+      exact ⟨init, c, by simp [textOf, h1], h2⟩
+  | tk :: tk2 :: ss, tail, hs, _ => by
+    cases hs with
+    | cons _ _ _ _ _ hrest =>
+      obtain ⟨init, c, h1, h2⟩ := textOf_last_noWs (tk2 :: ss) tail hrest (by simp)
+      exact ⟨tk.text ++ init, c, by simp only [textOf] at h1 ⊢; rw [h1]; simp, h2⟩
+
+theorem strip_trailing (l : List Char) (h : ∃ init c, l = init ++ [c] ∧ isWs c = false) :
+    (l.reverse.dropWhile isWs).reverse = l := by
+  obtain ⟨init, c, rfl, hc⟩ := h
+  simp [List.dropWhile, hc]
+
 /-- **from tokens to text**: if the token list of a delimited compact spelling parses to `t`, the formula text
 `=` followed by the characters of the tokens parses to `t` -/
 theorem parse_text (ss : List TS) (hs : Safe ss) (hne : ss ≠ []) (t : Ast)
@@ -986,8 +1040,12 @@ theorem parse_text (ss : List TS) (hs : Safe ss) (hne : ss ≠ []) (t : Ast)
       rw [this, hsc]
       exact scan_text (tk :: ss') hs pw'
     have hbody : textOf (tk :: ss') = c :: r := by simp only [textOf]; exact hcr
-    simp only [parseString, hdom, Bool.not_true, Bool.false_eq_true, if_false, skipWs_cons '=' _ (by decide : isWs '=' = false)]
-    rw [hbody, skipWs_cons c r hcw]
+    have hstrip : skipWs ((skipWs (textOf (tk :: ss'))).reverse.dropWhile isWs).reverse = textOf (tk :: ss') := by
+      rw [hbody, skipWs_cons c r hcw, ← hbody, strip_trailing _ (textOf_last_noWs (tk :: ss') [] hs (by simp)), hbody,
+        skipWs_cons c r hcw]
+    simp only [parseString, hdom, Bool.not_true, Bool.false_eq_true, if_false, skipWs_cons '=' _ (by decide : isWs '=' = false),
+      hstrip]
+    rw [hbody]
     simp only [parseFormulaBody]
     rw [← hbody, hloop]
     simp only [h]
